@@ -60,8 +60,9 @@ Renamed(c, mapper) == IF mapper /\ c.old THEN [c EXCEPT !.old = FALSE] ELSE c
 (* multimerge: a table is a function key -> value (unique keys)            *)
 (***************************************************************************)
 MergeTables == UNION { [1..n -> UNION { [K -> {7}] : K \in SUBSET KeyVals }] : n \in 2..MaxTables }
-JoinKeys(ts, how) == IF how = "outer" THEN UNION { DOMAIN ts[i] : i \in 1..Len(ts) }
-                     ELSE { k \in DOMAIN ts[1] : \A i \in 1..Len(ts) : k \in DOMAIN ts[i] }
+JoinKeys(ts, how) == CASE how = "outer" -> UNION { DOMAIN ts[i] : i \in 1..Len(ts) }
+                       [] how = "left" -> DOMAIN ts[1]                      \* every key of the first table, whatever the others hold
+                       [] OTHER -> { k \in DOMAIN ts[1] : \A i \in 1..Len(ts) : k \in DOMAIN ts[i] }
 JoinRow(ts, k) == [i \in 1..Len(ts) |-> IF k \in DOMAIN ts[i] THEN ts[i][k] ELSE 0]
 Join(ts, how) == [k \in JoinKeys(ts, how) |-> JoinRow(ts, k)]
 
@@ -72,7 +73,7 @@ Init == /\ kind \in Kinds
                       [] kind = "merge" -> MergeTables
                       [] OTHER -> {<<>>})
         /\ opts \in (CASE kind = "std" -> { [standardize |-> sd, mapper |-> mp] : sd \in BOOLEAN, mp \in BOOLEAN }
-                       [] kind = "merge" -> { [how |-> h, suffixes |-> sf, onindex |-> oi] : h \in {"outer", "inner"}, sf \in BOOLEAN, oi \in BOOLEAN }
+                       [] kind = "merge" -> { [how |-> h, suffixes |-> sf, onindex |-> oi] : h \in {"outer", "inner", "left"}, sf \in BOOLEAN, oi \in BOOLEAN }
                        [] OTHER -> {<<>>})
         /\ out = <<>> /\ outcols = <<>> /\ pending = <<>> /\ step = "start"
 
@@ -112,7 +113,9 @@ MergeStart == /\ kind = "merge" /\ step = "start"
               /\ step' = "merging"
               /\ UNCHANGED <<kind, obj, tab, cols, opts, outcols>>
 MergeNext == /\ kind = "merge" /\ step = "merging" /\ pending # <<>>
-             /\ out' = [k \in (IF opts.how = "outer" THEN (DOMAIN out) \cup (DOMAIN Head(pending)) ELSE (DOMAIN out) \cap (DOMAIN Head(pending))) |->
+             /\ out' = [k \in (CASE opts.how = "outer" -> (DOMAIN out) \cup (DOMAIN Head(pending))
+                                  [] opts.how = "left" -> DOMAIN out
+                                  [] OTHER -> (DOMAIN out) \cap (DOMAIN Head(pending))) |->
                           (IF k \in DOMAIN out THEN out[k] ELSE [i \in 1..(Len(tab) - Len(pending)) |-> 0])
                           \o <<IF k \in DOMAIN Head(pending) THEN Head(pending)[k] ELSE 0>>]
              /\ pending' = Tail(pending)
